@@ -124,8 +124,12 @@ func init() {
 		}
 		return StringV{opaque: true, nonEmpty: true}
 	}
-	for _, n := range []string{"(*sync.Mutex).Lock", "(*sync.Mutex).Unlock", "(*sync.RWMutex).Lock", "(*sync.RWMutex).Unlock",
-		"(*sync.RWMutex).RLock", "(*sync.RWMutex).RUnlock", "(*sync.WaitGroup).Add", "(*sync.WaitGroup).Done", "(*sync.WaitGroup).Wait",
+	for n, op := range map[string]string{"(*sync.Mutex).Lock": "lock", "(*sync.Mutex).Unlock": "unlock", "(*sync.RWMutex).Lock": "lock", "(*sync.RWMutex).Unlock": "unlock",
+		"(*sync.RWMutex).RLock": "rlock", "(*sync.RWMutex).RUnlock": "runlock", "(*sync.Mutex).TryLock": "trylock", "(*sync.RWMutex).TryLock": "trylock", "(*sync.RWMutex).TryRLock": "tryrlock"} {
+		op := op
+		models[n] = func(e *Engine, st *State, args []Value, call *ssa.Call, pos token.Pos) Value { return e.muOp(st, args[0], op) }
+	}
+	for _, n := range []string{"(*sync.WaitGroup).Add", "(*sync.WaitGroup).Done", "(*sync.WaitGroup).Wait",
 		"runtime.KeepAlive", "runtime.Gosched"} {
 		models[n] = noop
 	}
@@ -242,6 +246,34 @@ func init() {
 			return tailCall{FuncV{fn: h}, args}
 		}
 	}
+	// the dialer: (*net.Dialer).DialContext hands out whatever the harness scripted (prelude var
+	// vDialFn); natively the real dialer runs. The connect timer's jitter is fixed.
+	models["(*net.Dialer).DialContext"] = func(e *Engine, st *State, args []Value, call *ssa.Call, pos token.Pos) Value {
+		h := e.target.Func("vDialContext")
+		if h == nil {
+			panic(unsupported{"prelude helper vDialContext missing"})
+		}
+		modelsUsed["(*net.Dialer).DialContext returns the transport scripted by the harness (vDialFn)"]++
+		return tailCall{FuncV{fn: h}, args}
+	}
+	for _, n := range []string{"SetTCPTTLSockopt", "SetTCPMinTTLSockopt", "SetTCPMSSSockopt", "SetIPTOSSockopt"} {
+		models["github.com/osrg/gobgp/v4/internal/pkg/netutils."+n] = func(e *Engine, st *State, args []Value, call *ssa.Call, pos token.Pos) Value {
+			modelsUsed["netutils socket options on a connection: no effect, no error"]++
+			return Iface{}
+		}
+	}
+	models["math/rand.Float64"] = func(e *Engine, st *State, args []Value, call *ssa.Call, pos token.Pos) Value {
+		modelsUsed["math/rand.Float64 = 0.5 (timer jitter fixed)"]++
+		return BV(64, math.Float64bits(0.5))
+	}
+	models["net.JoinHostPort"] = func(e *Engine, st *State, args []Value, call *ssa.Call, pos token.Pos) Value {
+		return StringV{opaque: true, nonEmpty: true}
+	}
+	models["net.ResolveTCPAddr"] = func(e *Engine, st *State, args []Value, call *ssa.Call, pos token.Pos) Value {
+		tt := call.Type().(*types.Tuple).At(0).Type().Underlying().(*types.Pointer).Elem()
+		modelsUsed["net.ResolveTCPAddr succeeds (address not interpreted)"]++
+		return TupleV{Pointer{obj: st.alloc(newObjFor(tt)), off: BV(64, 0)}, Iface{}}
+	}
 	// farm.Hash64 over bytes that are not all constants: an uninterpreted perfect hash. Equal inputs
 	// give equal results, different inputs different results (collisions are outside every claim);
 	// constant inputs are hashed by the real code.
@@ -303,7 +335,6 @@ func init() {
 		el[14], el[15] = BV(8, uint64(e.uuidN>>8)), BV(8, uint64(e.uuidN))
 		return TupleV{ArrayV{e: el}, Iface{}}
 	}
-	models["(*sync.Mutex).TryLock"] = func(e *Engine, st *State, args []Value, call *ssa.Call, pos token.Pos) Value { return Bool(true) }
 	models["time.Now"] = func(e *Engine, st *State, args []Value, call *ssa.Call, pos token.Pos) Value {
 		// time.Time{wall uint64, ext int64, loc *Location}: wall without the monotonic bit, ext = seconds since year 1.
 		// A fresh, non-decreasing instant (whole seconds, 2001..2100).
